@@ -497,6 +497,10 @@ class ConcWorld(BaseWorld):
         cls = cls or FlodymArray
         shape = tuple(len(d.items) for d in dims)
         vals = self.ndarray(name, shape)
+        if self.square and len(shape) >= 2:
+            # same logical array, column-major memory layout (nothing may depend on contiguity or memory order)
+            vals = _np.asfortranarray(vals)
+            self.inputs.setdefault("column_major", []).append(name)
         if int_ok and self.int_driver and self.fill is None:
             # an operand that is only read: whole numbers in an integer-typed array on the 'integer' runs
             vals = _np.round(vals * 4).astype(_np.int64)
